@@ -17,12 +17,25 @@
 //@ fn LogSequence::maxVal tu=utils/LogSequence.cpp
 //@ fn LogSequence::bits tu=utils/LogSequence.cpp
 //@ fn bits tu=libcds/src/bitsequence/BitSequenceRG.cpp
+//@ fn LogSequence::numBytesFor tu=utils/LogSequence.cpp
+//@ fn LogSequence::numElementsFor tu=utils/LogSequence.cpp
+//@ fn LogSequence::save tu=utils/LogSequence.cpp
+//@ fn LogSequence::ctor tu=utils/LogSequence.cpp sig=vstream_p
+//@ fn RePair::ctor sig=0
+//@ fn RePair::save sig=vstream_p__uint
+//@ fn RePair::load
+//@ global HASHRPDAC RPDAC HASHRPF RPFC
 //@ ob rp_cmpRP_pattern entry=h_cmpRP enforce=RePair__extractStringAndCompareRP replace=LogSequence__getField,RePair__expandRuleAndCompareString loops tier=P props=C14,C07 kind=statement timeout=600
 //@ ob rp_expandRule entry=h_expand tier=B props=C20,C07 kind=statement unwind=5 foreach=NRULES:1-2 timeout=900 defs=-DREAL_GETFIELD
 //@ ob rp_expandRule3 entry=h_expand tier=B props=C20,C07 kind=statement unwind=9 timeout=3600 mem=30 defs=-DREAL_GETFIELD,-DNRULES=3 only=thorough
 //@ ob rp_bits entry=h_bits tier=C props=C20 kind=statement unwind=34
+//@ ob rp_saveload entry=h_rp_sl tier=C props=C20,C06,C08 kind=statement unwind=20 foreach=ENC:0-1
 size_t gk;
+#include "vstream.h"
 //@ structs
+/* TRUSTED: DAC_VLS save/load are checked in unit dac; here they transfer the object */
+void DAC_VLS__save(DAC_VLS *this, struct vstream *fp);
+DAC_VLS *DAC_VLS__load(struct vstream *fp);
 /* TRUSTED: interface contracts used by the pattern-preservation obligation: the packed sequence returns some symbol; the recursive comparison moves *pos and writes nothing else (its own frame is the same shape; it never writes through str) */
 int RePair__expandRuleAndCompareString(RePair *this, uint rule, uchar *str, uint *pos)
 __CPROVER_requires(__CPROVER_rw_ok(pos, sizeof(uint))) __CPROVER_ensures(1) __CPROVER_assigns(*pos);
@@ -80,5 +93,31 @@ void h_bits(void) {
   __CPROVER_assume(in_total >= 1 && in_x < in_total);
   uint b = bits(in_total);
   __CPROVER_assert(b >= 1 && b <= 32 && in_x <= LogSequence__maxVal(&ls, b), "C20: x < rules+terminals fits in bits(rules+terminals) bits, so setField never rejects it");
+  REACH_POINT();
+}
+
+static DAC_VLS *g_saved_dac;
+void DAC_VLS__save(DAC_VLS *this, struct vstream *fp) { g_saved_dac = this; }
+DAC_VLS *DAC_VLS__load(struct vstream *fp) { return g_saved_dac; }
+#ifndef ENC
+#define ENC 0
+#endif
+/* C20/C06: the grammar (and the choice of sequence representation) survives save/load unchanged */
+void h_rp_sl(void) {
+  static size_t gw[2], cw[1]; LogSequence g, cls; static struct { char c; } dacobj;
+  g.numbits = 9; g.numentries = 6; g.arraysize = 1; g.maxval = 511; g.array = gw; size_t in_g0; gw[0] = in_g0; gw[1] = 0;
+  cls.numbits = 9; cls.numentries = 5; cls.arraysize = 1; cls.maxval = 511; cls.array = cw; size_t in_c0; cw[0] = in_c0;
+  RePair rp; uchar in_maxchar; uint64_t in_terminals, in_rules;
+  rp.G = &g; rp.Cls = &cls; rp.Cdac = (DAC_VLS *)&dacobj; rp.maxchar = in_maxchar; rp.terminals = in_terminals; rp.rules = in_rules;
+  uint enc = ENC ? HASHRPDAC : HASHRPF;
+  static uchar buf[128]; struct vstream out = {buf, 0, 128}, in;
+  RePair__save__vstream_p__uint(&rp, &out, enc);
+  in = out; in.pos = 0;
+  RePair *l = RePair__load(&in);
+  __CPROVER_assert(in.pos == out.pos, "C06: load consumes exactly the bytes save wrote");
+  __CPROVER_assert(l->maxchar == in_maxchar && l->terminals == in_terminals && l->rules == in_rules, "C20: grammar header unchanged after save/load");
+  __CPROVER_assert(l->G->numbits == 9 && l->G->numentries == 6 && l->G->array[0] == in_g0, "C20: rule array unchanged after save/load");
+  if (ENC) __CPROVER_assert(l->Cdac == (DAC_VLS *)&dacobj, "C20: DAC-encoded sequence reloaded for the DAC kinds");
+  else __CPROVER_assert(l->Cls->numentries == 5 && l->Cls->array[0] == in_c0, "C20: packed sequence reloaded for the other kinds");
   REACH_POINT();
 }
